@@ -176,6 +176,26 @@ def run(ctx, out):
                 'float-free, cause-free trees (corr_text).')
     items = []
     convprop.run(ctx, out, PROP, monitor_factory(items), cfg={'weights': {'class': 2.5, 'union': 2.0, 'seq': 1.5, 'dict': 1.5}}, extra_cases=shape_cases)
+    # rendering an error that mentions an int beyond the interpreter's int -> str digit limit
+    import sys
+    import typing as _t
+    import pane
+    lim = sys.get_int_max_str_digits() if hasattr(sys, 'get_int_max_str_digits') else 0
+    if lim:
+        big = 10 ** (lim + 100)
+        for label, ty, v in (('leaf value', str, big), ('list element', _t.List[str], ['a', big]), ('mapping value', _t.Dict[str, str], {'k': big})):
+            out.evaluations += 1
+            try:
+                pane.from_data(v, ty)
+            except pane.ConvertError as e:
+                try:
+                    str(e)
+                except Exception as e2:
+                    out.violation(f'C08:render-raises:int-beyond-str-digit-limit:{type(e2).__name__}',
+                                  f'str(ConvertError) raised {type(e2).__name__} for an offending int of {lim + 101} digits ({label})',
+                                  {'value': f'10 ** {lim + 100}', 'position': label, 'type': repr(ty)})
+            except Exception:
+                pass        # an escape is C04's business
     if any(f in ctx['failed_files'] for f in ('Model/Render.v', 'Run/AgreeRender.v')):
         out.oblige('corr_text', False, 'renderer model does not build')
         return
@@ -185,7 +205,7 @@ def run(ctx, out):
                f'{len(bad)} mismatches over {len(items)}, {len(errs)} shard errors')
     for e in errs[:2]:
         out.violation('C08:corr_text:shard-error', 'shard failed: ' + e[:500], {'correspondence': 'corr_text', 'error': e[:1500]}, no_input=True)
-    if bad and not any(not v['no_input'] for v in out.violations):
+    if bad and not out.has_unlisted_input():
         c, coq = items[bad[0]]
         rc, o = coq_eval(PROP, 'diag', HEADER + f'Eval vm_compute in (render_case_model {coq}).\n')
         out.violation('C08:corr_text', f'renderer model and pane disagree on {len(bad)} tree(s), e.g. value {c.value!r} as {c.built.py!r}: {str(c.fd_obs[1])[:200]!r}',
